@@ -304,11 +304,9 @@ structure CState where
   cache : List (String × Entry)
   pending : List Task
   tk : TK
-  /-- sticky: some deferred refresh was applied although its entry was no longer the cached one. -/
-  staleApplied : Bool
 deriving Repr, Inhabited
 
-def CState.init (cfg : Cfg) : CState := ⟨cfg.normalize, 0, 1, [], [], TK.empty, false⟩
+def CState.init (cfg : Cfg) : CState := ⟨cfg.normalize, 0, 1, [], [], TK.empty⟩
 
 def sec : Nat := 1000000000
 
@@ -348,18 +346,26 @@ def CState.trigger (σ : CState) (key : String) (e : Entry) : CState :=
              pending := σ.pending ++ [⟨e.id, key, e.snap, σ.now⟩] }
   else σ
 
-/-- is the entry a queued refresh points to still what the cache holds under its key? -/
-def taskFresh (C : List (String × Entry)) (t : Task) : Bool :=
-  match alLookup t.key C with
-  | some e => decide (e.snap = t.snap)
-  | none => false
+/-- `processBpfUpdateTask` for a task taken from the queue (code after the fix "a queued domain-routing
+refresh is dropped when its DNS cache entry was replaced or removed meanwhile"): the task is applied only
+when the object it points to is still the one cached under its key (`cur == task.cache`, pointer identity
+= `id`); then `cacheAccessCallback(task.cache)` and `task.cache.MarkBpfUpdated(task.now)`. Otherwise it is
+dropped. (Unpublished objects with an empty `RouteOwnerKey` are never queued in this model.) -/
+def CState.applyTask (σ : CState) (t : Task) : CState :=
+  match alLookup t.key σ.cache with
+  | some e =>
+    if e.id = t.id then
+      { σ with cache := alInsert t.key { e with lastSync := t.now } σ.cache, tk := σ.tk.sync t.key t.snap }
+    else σ
+  | none => σ
 
-/-- `task.cache.MarkBpfUpdated(task.now)`: touches the task's own object, which is visible only while that
-object is still the cached one. -/
-def markUpdated (C : List (String × Entry)) (t : Task) : List (String × Entry) :=
-  match alLookup t.key C with
-  | some e => if e.id = t.id then alInsert t.key { e with lastSync := t.now } C else C
-  | none => C
+/-- `processBpfUpdateTask` as it was BEFORE that fix (revert witness only): the task is applied
+unconditionally; `MarkBpfUpdated` touches the task's own object, visible only while still cached. -/
+def CState.applyTaskUnguarded (σ : CState) (t : Task) : CState :=
+  let cache' := match alLookup t.key σ.cache with
+    | some e => if e.id = t.id then alInsert t.key { e with lastSync := t.now } σ.cache else σ.cache
+    | none => σ.cache
+  { σ with cache := cache', tk := σ.tk.sync t.key t.snap }
 
 def cstep (σ : CState) : COp → CState
   | .put key ttl fixedTtl bitmap ans =>
@@ -384,9 +390,7 @@ def cstep (σ : CState) : COp → CState
   | .work =>
     match σ.pending with
     | [] => σ
-    | t :: rest =>
-      { σ with pending := rest, cache := markUpdated σ.cache t, tk := σ.tk.sync t.key t.snap,
-               staleApplied := σ.staleApplied || !taskFresh σ.cache t }
+    | t :: rest => ({ σ with pending := rest } : CState).applyTask t
   | .touch key =>
     match alLookup key σ.cache with
     | none => σ
@@ -405,6 +409,16 @@ def cstep (σ : CState) : COp → CState
       else σ1.evict key
 
 def crun (σ : CState) (ops : List COp) : CState := ops.foldl cstep σ
+
+/-- the same machine with the pre-fix worker (revert witness only; nothing else uses it). -/
+def cstepUnguarded (σ : CState) : COp → CState
+  | .work =>
+    match σ.pending with
+    | [] => σ
+    | t :: rest => ({ σ with pending := rest } : CState).applyTaskUnguarded t
+  | op => cstep σ op
+
+def crunUnguarded (σ : CState) (ops : List COp) : CState := ops.foldl cstepUnguarded σ
 
 /-! ## legality of the nondeterministic choices the driver is told about -/
 
